@@ -56,6 +56,8 @@ def case_hash(case) -> str:
 
 
 def _frame_owner(filename: str) -> str:
+    if not os.path.isabs(filename):  # frames of compiled extensions carry relative names ("numpy/random/mtrand.pyx")
+        return "other"
     f = os.path.abspath(filename)
     rp = os.path.join(env.REPO_ROOT, "rpylib")
     if f.startswith(rp + os.sep) or f.startswith("/repo/rpylib/"):
